@@ -292,7 +292,8 @@ class DBStorage(BaseStorage):
             tags = set()
             for tag in event.tags:
                 if tag[0] in ("delegation", "expiration"):
-                    tags.add((tag[0], tag[1]))
+                    if len(tag) > 1:
+                        tags.add((tag[0], tag[1]))
                 elif len(tag[0]) == 1:
                     tags.add((tag[0], tag[1] if len(tag) > 1 else ""))
             if tags:
@@ -308,11 +309,16 @@ class DBStorage(BaseStorage):
                 # delete the referenced events
                 for tag in event.tags:
                     name = tag[0]
-                    if name == "e":
+                    if name == "e" and len(tag) > 1:
                         event_id = tag[1]
+                        try:
+                            id_bytes = bytes.fromhex(event_id)
+                        except ValueError:
+                            # not an event id: nothing to delete
+                            continue
                         query = sa.delete(self.EventTable).where(
                             (self.EventTable.c.pubkey == bytes.fromhex(event.pubkey))
-                            & (self.EventTable.c.id == bytes.fromhex(event_id))
+                            & (self.EventTable.c.id == id_bytes)
                         )
                         await conn.execute(query)
                         self.log.info("Deleted event %s", event_id)
